@@ -2,11 +2,12 @@
    eval_node (Graph/Eval.v) is the implementation model, tied to SimpleEvaluator node by node on
    every run; the theorems below relate it to independent statements of the documented
    semantics.  Covered so far: arithmetic kernels for every scalar type, the row-major index
-   arithmetic every array operation is built on, A2B/B2A, plaintext Truncate.  The remaining
-   per-operation specifications (broadcast, matmul, slicing, ...) are listed in C10_full_todo
-   and are covered by the correspondence only. *)
+   arithmetic every array operation is built on, A2B/B2A, plaintext Truncate, and (second part of
+   this file) one theorem per operation against the independent specifications of Graph/Spec.v,
+   for every scalar type, every admissible shape combination of any rank and every element value.
+   Operations not listed in the second part are covered by the correspondence only. *)
 From CC Require Import Base.Prelude Base.Scalar Base.Ty Base.Shape Graph.Value Graph.IR Graph.Eval
-  Proofs.EvalProofs.
+  Proofs.EvalProofs Graph.Spec Proofs.EvalSpecBase Proofs.EvalSpecProofs Proofs.EvalSpecIndex Proofs.EvalSpecMatmul.
 
 (* Kernels (bytes.rs:7-174): wrapping u128 arithmetic followed by `% modulus` is arithmetic
    modulo 2^w for every scalar type, 128-bit types included. *)
@@ -56,3 +57,320 @@ Print Assumptions C10_number_to_index_inverse.
 Print Assumptions C10_b2a_a2b_elem.
 Print Assumptions C10_a2b_bits.
 Print Assumptions C10_truncate_elem_spec.
+
+(* ====================================================================================== *)
+(* Per-operation specifications (Graph/Spec.v: multi-index access [get a sh idx], integer sums
+   reduced modulo 2^w).  No rank bound, every scalar type, every element value. *)
+
+(* Broadcasting (simple_evaluator.rs:27, broadcast.rs:83): for s broadcastable to rs (NumPy rule,
+   aligned at the trailing dimensions) the result has prod rs elements and reads the operand at
+   the index whose coordinates on size-1 dimensions are 0. *)
+Theorem C10_broadcast_spec : forall arr s rs,
+  bcast_to s rs -> length arr = Z.to_nat (prod_list s) ->
+  exists r, broadcast_to_shape arr s rs = Ok r /\ length r = Z.to_nat (prod_list rs) /\
+    forall idx, in_shape idx rs -> get r rs idx = get arr s (bcast_index s rs idx).
+Proof. exact broadcast_spec. Qed.
+
+(* Add / Subtract / Multiply: at every result index, the integer operation on the broadcast
+   operands reduced modulo 2^w (w = width of the operands' scalar type, 1..128). *)
+Theorem C10_add_spec : forall t0 t1 tr a b, arith_hyps t0 t1 tr a b ->
+  exists r, eval_node OAdd [t0; t1] tr [VArr a; VArr b] = Ok (VArr r) /\
+    elementwise_spec (fun x y => (x + y) mod modulus (st_of t0)) a (dims t0) b (dims t1) r (dims tr).
+Proof. intros. apply (arith_node_spec k_add Z.add); auto using k_add_mod. Qed.
+Theorem C10_subtract_spec : forall t0 t1 tr a b, arith_hyps t0 t1 tr a b ->
+  exists r, eval_node OSubtract [t0; t1] tr [VArr a; VArr b] = Ok (VArr r) /\
+    elementwise_spec (fun x y => (x - y) mod modulus (st_of t0)) a (dims t0) b (dims t1) r (dims tr).
+Proof. intros. apply (arith_node_spec k_sub Z.sub); auto using k_sub_mod. Qed.
+Theorem C10_multiply_spec : forall t0 t1 tr a b, arith_hyps t0 t1 tr a b ->
+  exists r, eval_node OMultiply [t0; t1] tr [VArr a; VArr b] = Ok (VArr r) /\
+    elementwise_spec (fun x y => (x * y) mod modulus (st_of t0)) a (dims t0) b (dims t1) r (dims tr).
+Proof. intros. apply (arith_node_spec k_mul Z.mul); auto using k_mul_mod. Qed.
+(* MixedMultiply (integer array times bit array): the product in the first operand's type *)
+Theorem C10_mixed_multiply_spec : forall t0 t1 tr a b,
+  is_leaf t0 = true -> is_leaf t1 = true ->
+  bcast_to (dims t0) (dims tr) -> bcast_to (dims t1) (dims tr) ->
+  length a = Z.to_nat (prod_list (dims t0)) -> length b = Z.to_nat (prod_list (dims t1)) ->
+  exists r, eval_node OMixedMultiply [t0; t1] tr [VArr a; VArr b] = Ok (VArr r) /\
+    elementwise_spec (fun x y => (x * y) mod modulus (st_of t0)) a (dims t0) b (dims t1) r (dims tr).
+Proof.
+  intros t0 t1 tr a b L0 L1 B0 B1 La Lb.
+  destruct (mixed_spec t0 t1 tr a b L0 L1 B0 B1 La Lb) as (r & E & S).
+  exists r. split; [exact E|]. eapply elementwise_spec_ext; [|exact S]. intros; apply k_mul_mod.
+Qed.
+
+(* Sum over all axes (scalar result): the integer sum of all elements modulo 2^w. *)
+Theorem C10_sum_scalar_spec : forall sh st0 st axes values,
+  eval_node (OSum axes) [TArray sh st0] (TScalar st) [VArr values]
+  = Ok (VArr [list_sum_z values mod modulus st]).
+Proof. intros. apply sum_scalar_spec. Qed.
+(* Sum along axes (numpy.sum(a, axis=axes)): the result index ridx collects all input indices
+   that agree with it off the summed axes. *)
+Theorem C10_sum_axes_spec : forall sh st0 st axes values,
+  valid_shape sh -> axes <> [] -> length values = Z.to_nat (prod_list sh) ->
+  let rsh := drop_axes 0 axes sh in
+  exists r, eval_node (OSum axes) [TArray sh st0] (TArray rsh st) [VArr values] = Ok (VArr r) /\
+    length r = Z.to_nat (prod_list rsh) /\
+    forall ridx, in_shape ridx rsh -> get r rsh ridx = sum_axes_at values sh axes ridx mod modulus st.
+Proof. exact sum_axes_spec. Qed.
+(* CumSum (numpy.cumsum(a, axis)): prefix sums along the axis, modulo 2^w. *)
+Theorem C10_cumsum_spec : forall sh st axis values t,
+  valid_shape sh -> 0 <= axis < Z.of_nat (length sh) -> length values = Z.to_nat (prod_list sh) ->
+  Forall (fun e => 0 <= e < modulus st) values ->
+  exists r, eval_node (OCumSum axis) [TArray sh st] t [VArr values] = Ok (VArr r) /\
+    length r = length values /\
+    forall idx, in_shape idx sh ->
+      get r sh idx = cumsum_at values sh (Z.to_nat axis) idx mod modulus st.
+Proof. intros sh st axis values t. exact (cumsum_spec sh st axis values). Qed.
+
+(* Get (a[sub_index]): the sub-array at the leading multi-index. *)
+Theorem C10_get_spec : forall shape st t sub es,
+  valid_shape shape -> in_shape sub (firstn (length sub) shape) ->
+  length es = Z.to_nat (prod_list shape) ->
+  let rsh := skipn (length sub) shape in
+  exists r, eval_node (OGet sub) [TArray shape st] t [VArr es] = Ok (VArr r) /\
+    length r = Z.to_nat (prod_list rsh) /\
+    forall idx, in_shape idx rsh -> get r rsh idx = get es shape (sub ++ idx).
+Proof. exact get_spec. Qed.
+(* GetSlice (Python basic indexing with single indices, b:e:s ranges and Ellipsis): for every slice
+   accepted by the shape computation (slices.rs get_slice_shape), result[ridx] = a[slice_src ridx]:
+   a single index fixes the coordinate, b:e:s contributes begin + step * i, remaining axes whole.
+   [clean] is the slice with its Ellipsis expanded (C10_get_slice_ellipsis). *)
+Theorem C10_get_slice_spec : forall dshape st t sl clean rsh0 es,
+  valid_shape dshape ->
+  get_clean_slice dshape sl = Ok clean -> shape_go dshape clean = Ok rsh0 ->
+  dims t = (match rsh0 with [] => [1] | _ => rsh0 end) ->
+  length es = Z.to_nat (prod_list dshape) ->
+  exists r, eval_node (OGetSlice sl) [TArray dshape st] t [VArr es] = Ok (VArr r) /\
+    length r = Z.to_nat (prod_list (dims t)) /\
+    forall ridx, in_shape ridx (dims t) ->
+      in_shape (slice_src dshape clean ridx) dshape /\
+      get r (dims t) ridx = get es dshape (slice_src dshape clean ridx).
+Proof. exact get_slice_spec. Qed.
+Theorem C10_get_slice_ellipsis : forall shape slice clean,
+  get_clean_slice shape slice = Ok clean ->
+  clean = expand_ellipsis (Z.to_nat (Z.of_nat (length shape) - Z.of_nat (length slice) + 1)) slice
+  /\ get_slice_shape shape slice = shape_go shape clean.
+Proof.
+  intros shape slice clean H. split; [now apply get_clean_slice_expand|].
+  rewrite get_slice_shape_unfold, H. reflexivity.
+Qed.
+(* PermuteAxes (numpy.transpose(a, perm)): result[i_perm(0), i_perm(1), ...] = a[i_0, i_1, ...]. *)
+Theorem C10_permute_axes_spec : forall cur st st' perm es,
+  valid_shape cur -> is_perm_of_rank perm (length cur) ->
+  length es = Z.to_nat (prod_list cur) ->
+  let out := permute_index perm cur in
+  exists r, eval_node (OPermuteAxes perm) [TArray cur st] (TArray out st') [VArr es] = Ok (VArr r) /\
+    length r = length es /\
+    forall idx, in_shape idx cur -> get r out (permute_index perm idx) = get es cur idx.
+Proof.
+  intros cur st st' perm es Hv Hp Hl out.
+  destruct (permute_axes_spec cur perm es Hv Hp Hl) as (r & E & L & S).
+  exists r. split; [|split; [exact L|exact S]].
+  cbn [eval_node nth nth_res bind arr_of is_arr negb shape_of]. unfold out in *. rewrite E. reflexivity.
+Qed.
+
+(* ---- non-vacuity: concrete instances (size-1 broadcast dimensions, values >= 2^64) *)
+Ltac c10_bc :=
+  split; [cbn; lia | split; [repeat constructor; lia |
+    cbn; repeat (first [apply bcast_nil | apply bcast_cons; [first [left; reflexivity | right; reflexivity]|]])]].
+
+Ltac c10_ah :=
+  unfold arith_hyps; split; [reflexivity|]; split; [reflexivity|]; split; [reflexivity|];
+  split; [c10_bc|]; split; [c10_bc|]; split; reflexivity.
+
+Example C10_example_broadcast :
+  bcast_to [2; 1] [2; 2; 3] /\
+  broadcast_to_shape [2 ^ 100; 7] [2; 1] [2; 2; 3]
+  = Ok [2 ^ 100; 2 ^ 100; 2 ^ 100; 7; 7; 7; 2 ^ 100; 2 ^ 100; 2 ^ 100; 7; 7; 7].
+Proof. split; [c10_bc|reflexivity]. Qed.
+Example C10_example_add :
+  arith_hyps (TArray [2; 1] U128) (TArray [3] U128) (TArray [2; 3] U128) [2 ^ 128 - 1; 2 ^ 100] [1; 2 ^ 64 + 7; 5] /\
+  eval_node OAdd [TArray [2; 1] U128; TArray [3] U128] (TArray [2; 3] U128)
+            [VArr [2 ^ 128 - 1; 2 ^ 100]; VArr [1; 2 ^ 64 + 7; 5]]
+  = Ok (VArr [0; 2 ^ 64 + 6; 4; 2 ^ 100 + 1; 2 ^ 100 + 2 ^ 64 + 7; 2 ^ 100 + 5]).
+Proof. split; [c10_ah|reflexivity]. Qed.
+Example C10_example_subtract :
+  arith_hyps (TArray [2; 1] I128) (TScalar I128) (TArray [2; 1] I128) [0; 2 ^ 100] [2 ^ 64 + 7] /\
+  eval_node OSubtract [TArray [2; 1] I128; TScalar I128] (TArray [2; 1] I128)
+            [VArr [0; 2 ^ 100]; VArr [2 ^ 64 + 7]]
+  = Ok (VArr [2 ^ 128 - 2 ^ 64 - 7; 2 ^ 100 - 2 ^ 64 - 7]).
+Proof. split; [c10_ah|reflexivity]. Qed.
+Example C10_example_multiply :
+  arith_hyps (TArray [2; 1] U128) (TArray [3] U128) (TArray [2; 3] U128) [2 ^ 127; 2 ^ 100] [2; 2 ^ 64 + 7; 5] /\
+  eval_node OMultiply [TArray [2; 1] U128; TArray [3] U128] (TArray [2; 3] U128)
+            [VArr [2 ^ 127; 2 ^ 100]; VArr [2; 2 ^ 64 + 7; 5]]
+  = Ok (VArr [0; 2 ^ 127; 2 ^ 127; 2 ^ 101; 7 * 2 ^ 100; 5 * 2 ^ 100]).
+Proof. split; [c10_ah|reflexivity]. Qed.
+Example C10_example_mixed_multiply :
+  bcast_to [2; 1] [2; 3] /\ bcast_to [3] [2; 3] /\
+  eval_node OMixedMultiply [TArray [2; 1] U128; TArray [3] Bit] (TArray [2; 3] U128)
+            [VArr [2 ^ 127; 2 ^ 100]; VArr [1; 0; 1]]
+  = Ok (VArr [2 ^ 127; 0; 2 ^ 127; 2 ^ 100; 0; 2 ^ 100]).
+Proof. split; [c10_bc|split; [c10_bc|reflexivity]]. Qed.
+Example C10_example_sum :
+  eval_node (OSum [0; 1]) [TArray [2; 2] U128] (TScalar U128) [VArr [2 ^ 127; 2 ^ 100; 2 ^ 127; 5]]
+  = Ok (VArr [2 ^ 100 + 5]) /\
+  drop_axes 0 [0; 2] [2; 1; 2] = [1] /\
+  eval_node (OSum [0; 2]) [TArray [2; 1; 2] U128] (TArray [1] U128) [VArr [2 ^ 127; 2 ^ 100; 2 ^ 127; 5]]
+  = Ok (VArr [2 ^ 100 + 5]) /\
+  sum_axes_at [2 ^ 127; 2 ^ 100; 2 ^ 127; 5] [2; 1; 2] [0; 2] [0] = 2 ^ 128 + 2 ^ 100 + 5.
+Proof. repeat split; reflexivity. Qed.
+Example C10_example_cumsum :
+  eval_node (OCumSum 1) [TArray [2; 1; 2] U128] (TArray [2; 1; 2] U128) [VArr [2 ^ 127; 2 ^ 100; 2 ^ 127; 2 ^ 127 + 5]]
+  = Ok (VArr [2 ^ 127; 2 ^ 100; 2 ^ 127; 2 ^ 127 + 5]) /\
+  eval_node (OCumSum 2) [TArray [2; 1; 2] U128] (TArray [2; 1; 2] U128) [VArr [2 ^ 127; 2 ^ 100; 2 ^ 127; 2 ^ 127 + 5]]
+  = Ok (VArr [2 ^ 127; 2 ^ 127 + 2 ^ 100; 2 ^ 127; 5]).
+Proof. split; reflexivity. Qed.
+Example C10_example_get :
+  in_shape [1] (firstn 1 [2; 1; 2]) /\
+  eval_node (OGet [1]) [TArray [2; 1; 2] U128] (TArray [1; 2] U128) [VArr [2 ^ 127; 2 ^ 100; 2 ^ 65; 5]]
+  = Ok (VArr [2 ^ 65; 5]).
+Proof. split; [repeat constructor; lia|reflexivity]. Qed.
+Example C10_example_get_slice :
+  let sl := [SSingle (-1); SEllipsis; SSub (Some (-1)) None (Some (-2))] in
+  get_clean_slice [3; 1; 4] sl = Ok [SSingle (-1); SSub None None None; SSub (Some (-1)) None (Some (-2))] /\
+  get_slice_shape [3; 1; 4] sl = Ok [1; 2] /\
+  eval_node (OGetSlice sl) [TArray [3; 1; 4] U128] (TArray [1; 2] U128)
+            [VArr [0; 1; 2; 3; 4; 5; 6; 7; 2 ^ 100; 9; 10; 2 ^ 127]]
+  = Ok (VArr [2 ^ 127; 9]).
+Proof. repeat split; reflexivity. Qed.
+Example C10_example_permute_axes :
+  is_perm_of_rank [2; 0; 1] 3 /\
+  eval_node (OPermuteAxes [2; 0; 1]) [TArray [2; 1; 3] U128] (TArray [3; 2; 1] U128)
+            [VArr [2 ^ 127; 2 ^ 100; 2 ^ 65; 5; 6; 7]]
+  = Ok (VArr [2 ^ 127; 5; 2 ^ 100; 6; 2 ^ 65; 7]).
+Proof.
+  split; [|reflexivity]. split; [reflexivity|]. split.
+  - intros j Hj. cbn in Hj. lia.
+  - intros k Hk. assert (k = 0 \/ k = 1 \/ k = 2) as [ -> | [ -> | -> ] ] by lia; cbn; auto.
+Qed.
+
+Print Assumptions C10_broadcast_spec.
+Print Assumptions C10_add_spec.
+Print Assumptions C10_subtract_spec.
+Print Assumptions C10_multiply_spec.
+Print Assumptions C10_mixed_multiply_spec.
+Print Assumptions C10_sum_scalar_spec.
+Print Assumptions C10_sum_axes_spec.
+Print Assumptions C10_cumsum_spec.
+Print Assumptions C10_get_spec.
+Print Assumptions C10_get_slice_spec.
+Print Assumptions C10_get_slice_ellipsis.
+Print Assumptions C10_permute_axes_spec.
+
+(* ====================================================================================== *)
+(* Matmul (numpy.matmul) for operands of rank >= 2: stacks of n x k and k x m matrices whose
+   batch dimensions b0, b1 broadcast to br (any number of batch dimensions):
+   c[batch, i, j] = sum_l a[bcast batch, i, l] * b[bcast batch, l, j]  mod 2^w. *)
+Theorem C10_matmul_spec : forall st st1 st2 b0 b1 br n k m e0 e1,
+  bcast_to b0 br -> bcast_to b1 br -> 0 < n -> 0 < k -> 0 < m ->
+  let s0 := b0 ++ [n; k] in let s1 := b1 ++ [k; m] in let rs := br ++ [n; m] in
+  length e0 = Z.to_nat (prod_list s0) -> length e1 = Z.to_nat (prod_list s1) ->
+  exists r, eval_node OMatmul [TArray s0 st; TArray s1 st1] (TArray rs st2) [VArr e0; VArr e1] = Ok (VArr r) /\
+    length r = Z.to_nat (prod_list rs) /\
+    forall bi i j, in_shape bi br -> 0 <= i < n -> 0 <= j < m ->
+      get r rs (bi ++ [i; j]) =
+      dot_sum k (fun l => get e0 s0 (bcast_index b0 br bi ++ [i; l]))
+                (fun l => get e1 s1 (bcast_index b1 br bi ++ [l; j])) mod modulus st.
+Proof. exact matmul_spec. Qed.
+(* the rank-2 x rank-2 instance, spelled out *)
+Theorem C10_matmul_rank2_spec : forall st st1 st2 n k m e0 e1,
+  0 < n -> 0 < k -> 0 < m ->
+  length e0 = Z.to_nat (prod_list [n; k]) -> length e1 = Z.to_nat (prod_list [k; m]) ->
+  exists r, eval_node OMatmul [TArray [n; k] st; TArray [k; m] st1] (TArray [n; m] st2) [VArr e0; VArr e1]
+            = Ok (VArr r) /\
+    length r = Z.to_nat (prod_list [n; m]) /\
+    forall i j, 0 <= i < n -> 0 <= j < m ->
+      get r [n; m] [i; j] =
+      dot_sum k (fun l => get e0 [n; k] [i; l]) (fun l => get e1 [k; m] [l; j]) mod modulus st.
+Proof.
+  intros st st1 st2 n k m e0 e1 Hn Hk Hm L0 L1.
+  assert (B : bcast_to [] []) by (split; [cbn; lia|split; [constructor|cbn; constructor]]).
+  destruct (matmul_spec st st1 st2 [] [] [] n k m e0 e1 B B Hn Hk Hm L0 L1) as (r & E & L & S).
+  exists r. split; [exact E|]. split; [exact L|].
+  intros i j Hi Hj. exact (S [] i j in_shape_nil Hi Hj).
+Qed.
+(* rank-1 x rank-1 (Matmul and Dot): the inner product modulo 2^w *)
+Theorem C10_matmul_inner_spec : forall st st1 tr n e0 e1,
+  length e0 = Z.to_nat n -> length e1 = Z.to_nat n ->
+  eval_node OMatmul [TArray [n] st; TArray [n] st1] tr [VArr e0; VArr e1]
+  = Ok (VArr [dot_sum n (fun l => get e0 [n] [l]) (fun l => get e1 [n] [l]) mod modulus st]).
+Proof. exact matmul_inner_spec. Qed.
+Theorem C10_dot_inner_spec : forall st st1 tr n e0 e1,
+  length e0 = Z.to_nat n -> length e1 = Z.to_nat n ->
+  eval_node ODot [TArray [n] st; TArray [n] st1] tr [VArr e0; VArr e1]
+  = Ok (VArr [dot_sum n (fun l => get e0 [n] [l]) (fun l => get e1 [n] [l]) mod modulus st]).
+Proof. exact dot_inner_spec. Qed.
+(* Dot with a scalar factor is Multiply (documented rule) *)
+Theorem C10_dot_scalar_is_multiply : forall t0 t1 tr a b,
+  is_arr t0 && is_arr t1 = false ->
+  eval_node ODot [t0; t1] tr [a; b] = eval_node OMultiply [t0; t1] tr [a; b].
+Proof. intros t0 t1 tr a b H. cbn [eval_node nth nth_res bind]. unfold eval_dot. now rewrite H. Qed.
+
+(* Constructors and getters: getter-of-constructor laws; Repeat; Reshape of an array keeps the
+   flattened elements. *)
+Theorem C10_tuple_get_create : forall dts t ti vs i,
+  0 <= i < Z.of_nat (length vs) ->
+  (let* tup := eval_node OCreateTuple dts t vs in eval_node (OTupleGet i) [t] ti [tup])
+  = Ok (nth (Z.to_nat i) vs (VArr [])).
+Proof. intros. cbn [eval_node bind nth nth_res tup_of]. now apply znth_ok. Qed.
+Theorem C10_vector_create_repeat : forall dts t vs v n et,
+  eval_node (OCreateVector et) dts t vs = Ok (VTup vs) /\
+  eval_node (ORepeat n) dts t [v] = Ok (VTup (repeat v (Z.to_nat n))).
+Proof. intros; split; reflexivity. Qed.
+Theorem C10_reshape_array_identity : forall sh' st' t0 t es,
+  eval_node (OReshape (TArray sh' st')) [t0] t [VArr es] = Ok (VArr es).
+Proof. reflexivity. Qed.
+
+(* Dot of an N-d by an M-d array (N >= 1, M >= 2; includes 2-d x 2-d):
+   `dot(A, B)[ia.., ic.., j] = sum_l A[ia.., l] * B[ic.., l, j]` modulo 2^w. *)
+Theorem C10_dot_general_spec : forall st st1 st2 a0 c k m e0 e1,
+  valid_shape a0 -> valid_shape c -> 0 < k -> 0 < m ->
+  let s0 := a0 ++ [k] in let s1 := c ++ [k; m] in let rs := a0 ++ c ++ [m] in
+  length e0 = Z.to_nat (prod_list s0) -> length e1 = Z.to_nat (prod_list s1) ->
+  exists r, eval_node ODot [TArray s0 st; TArray s1 st1] (TArray rs st2) [VArr e0; VArr e1] = Ok (VArr r) /\
+    length r = Z.to_nat (prod_list rs) /\
+    forall ia ic j, in_shape ia a0 -> in_shape ic c -> 0 <= j < m ->
+      get r rs (ia ++ ic ++ [j]) =
+      dot_sum k (fun l => get e0 s0 (ia ++ [l])) (fun l => get e1 s1 (ic ++ [l; j])) mod modulus st.
+Proof. exact dot_general_spec. Qed.
+(* Stated, not proved (covered by the correspondence only). *)
+Definition C10_dot_nd_by_1d_full : Prop := forall st st1 st2 a0 k e0 e1,
+  valid_shape a0 -> a0 <> [] -> 0 < k ->
+  length e0 = Z.to_nat (prod_list (a0 ++ [k])) -> length e1 = Z.to_nat k ->
+  exists r, eval_node ODot [TArray (a0 ++ [k]) st; TArray [k] st1] (TArray a0 st2) [VArr e0; VArr e1] = Ok (VArr r) /\
+    length r = Z.to_nat (prod_list a0) /\
+    forall ia, in_shape ia a0 ->
+      get r a0 ia = dot_sum k (fun l => get e0 (a0 ++ [k]) (ia ++ [l])) (fun l => get e1 [k] [l]) mod modulus st.
+Example C10_example_dot_general :
+  eval_node ODot [TArray [2; 2] U128; TArray [1; 2; 2] U128] (TArray [2; 1; 2] U128)
+            [VArr [2 ^ 127; 2 ^ 100; 3; 2 ^ 64]; VArr [2; 1; 2 ^ 27; 5]]
+  = Ok (VArr [2 ^ 127; 2 ^ 127 + 5 * 2 ^ 100; 2 ^ 91 + 6; 5 * 2 ^ 64 + 3]).
+Proof. reflexivity. Qed.
+
+Example C10_example_matmul :
+  bcast_to [2] [2] /\ bcast_to [1] [2] /\
+  eval_node OMatmul [TArray [2; 1; 2] U128; TArray [1; 2; 2] U128] (TArray [2; 1; 2] U128)
+            [VArr [2 ^ 127; 2 ^ 100; 3; 2 ^ 64]; VArr [2; 1; 2 ^ 27; 5]]
+  = Ok (VArr [2 ^ 127; 2 ^ 127 + 5 * 2 ^ 100; 2 ^ 91 + 6; 5 * 2 ^ 64 + 3]).
+Proof. split; [c10_bc|split; [c10_bc|reflexivity]]. Qed.
+Example C10_example_inner :
+  eval_node OMatmul [TArray [2] U128; TArray [2] U128] (TScalar U128) [VArr [2 ^ 127; 2 ^ 100]; VArr [2; 2 ^ 27]]
+  = Ok (VArr [2 ^ 127]) /\
+  eval_node ODot [TArray [2] I128; TArray [2] I128] (TScalar I128) [VArr [2 ^ 127; 2 ^ 100]; VArr [3; 2 ^ 27]]
+  = Ok (VArr [0]).
+Proof. split; reflexivity. Qed.
+Example C10_example_tuple :
+  (let* tup := eval_node OCreateTuple [] (TTuple []) [VArr [2 ^ 100]; VArr [1; 2]] in
+   eval_node (OTupleGet 1) [TTuple []] (TArray [2] U8) [tup]) = Ok (VArr [1; 2]).
+Proof. reflexivity. Qed.
+
+Print Assumptions C10_matmul_spec.
+Print Assumptions C10_matmul_rank2_spec.
+Print Assumptions C10_matmul_inner_spec.
+Print Assumptions C10_dot_inner_spec.
+Print Assumptions C10_dot_general_spec.
+Print Assumptions C10_dot_scalar_is_multiply.
+Print Assumptions C10_tuple_get_create.
+Print Assumptions C10_vector_create_repeat.
+Print Assumptions C10_reshape_array_identity.
